@@ -22,6 +22,7 @@ WEAK = {  # switch -> properties one of which TLC must refute
     "PendingSkipsExpiry": ("BlockCheck",),
     "LateAddUnchecked": ("OnceOnly", "AdmitOnlyAdmissible"),
     "BufferUsesCurrentValSet": ("AdmitOnlyAdmissible", "NoPanic", "BufferFlushed"),
+    "ExpiryUsesStartupParams": ("BlockCheck", "ExpiryBoth", "SurvivesRestart", "PendingKept"),
 }
 HARNESS = ["zz_verif_c11_test.go", "zz_verif_c11_gen_test.go"]
 
@@ -152,7 +153,7 @@ def run(ctx):
             raise Undecided("vacuity: weakened spec Weak_%s does not violate any of %s" % (name, WEAK[name]))
         nonvac["Weak_%s refuted by TLC (%s)" % (name, hit[0]["name"])] = True
         ops = [act_to_op(st_["act"]) for _h, st_ in hit[0]["trace"][1:]]
-        attack.append({"src": "attack:" + name, "ctx": "quick", "ops": [o for o in ops if o]})
+        attack.append({"src": "attack:" + name, "ctx": "weak", "ops": [o for o in ops if o]})
 
     # act-augmented state graph of the pool (state-changing calls) -> schedules
     g = core.parse_dot(dot)
@@ -160,7 +161,7 @@ def run(ctx):
     graph = []
     for nodes in core.graph_schedules(g):
         ops = [act_to_op(g.nodes[n]["act"]) for n in nodes[1:]]
-        graph.append({"src": "graph", "ctx": "graph", "ops": [o for o in ops if o]})
+        graph.append({"src": "graph", "ctx": "graph" if quick else "mid", "ops": [o for o in ops if o]})
     graph_states = len(g.nodes)
     graph_views = set()
     for n in g.nodes.values():
